@@ -6,6 +6,6 @@ CONSTANTS
   Kinds = {"open", "change0", "change1", "change2", "open_nf", "semtok", "unkreq", "unknotif", "cresp", "shutdown"}
   Emit = TRUE
   Deviations = {}
-INVARIANTS CacheCoherent PublishesMatchNotifications AnswerExactlyOnce NoPendingAtRest NeverAnswerNotification UnknownGetsError Survives ShutdownThenExit EmitReplay
+INVARIANTS CacheCoherent DocsFollowProtocol PublishesMatchNotifications AnswerExactlyOnce NoPendingAtRest NeverAnswerNotification UnknownGetsError Survives ShutdownThenExit EmitReplay
 PROPERTIES PublishExactlyOnce
 CHECK_DEADLOCK FALSE
